@@ -48,22 +48,48 @@ for op in OPS:
         else:
             jobs.append(job(jn, en, props=pr))
 
+CMP = ['eq', 'ne', 'gt', 'ge', 'lt', 'le']
+CF = 'src/operations/compare.cc'
+EVH = 'src/edge_value.h'
+funcs += [
+    dict(cls='edge_value', name='operator long', file=EVH, cname='edge_value__to_long'),
+    dict(cls='edge_value', name='set', file=EVH, sel=r'^$', cname='edge_value__set_void', argc_key=0),
+    dict(cls='edge_value', name='set', file=EVH, sel=r'^long v$', cname='edge_value__set_long', argc_key=1),
+    dict(cls='edge_value', name='edge_value', file='src/edge_value.cc', sel=r'^long v$', ctor=True, where='out', cname='edge_value__ctor_long', argc_key='ctor_long'),
+]
+for c in CMP:
+    funcs += [
+        dict(cls=c + '_base', name='isSymmetric', file=CF, static=True), dict(cls=c + '_base', name='isReflexive', file=CF, static=True),
+        dict(cls=c + '_mt', name='compare', file=CF, static=True),
+        dict(cls=c + '_evplus', name='compare', file=CF, static=True), dict(cls=c + '_evplus', name='isSpecialCase', file=CF, static=True),
+    ]
+    jobs += [job('cmp_%s_mt' % c, 'lemma_cmp_%s_mt' % c), job('cmp_%s_evplus' % c, 'lemma_cmp_%s_evplus' % c)]
+for op in ('mult', 'div', 'mod'):
+    funcs.append(dict(cls='evplus_' + op, name='apply', file=opfile(op), static=True, sel=r'^const edge_value &av, node_handle an', cname='evplus_%s__apply' % op, argc_key=6))
+    # 64-bit multiply / divide / remainder equivalence: thorough tier only (did not finish in 600 s on SAT)
+    jobs.append(job('evplus_%s_kernel' % op, 'lemma_evplus_%s_kernel' % op, props=['C05', 'C16'] if op != 'mult' else ['C05'], tier='thorough', timeout=7200))
+
 UNIT = {
     'name': 'arith',
+    'conversion_classes': ['edge_value'],
+    'assign_ctor': {'edge_value': 'edge_value__ctor_long'},
     'typedefs': [('src/defines.h', 'node_handle')],
-    'enums': [('src/terminal.h', 'terminal_type'), ('src/policies.h', 'reduction_rule')],
+    'enums': [('src/terminal.h', 'terminal_type'), ('src/policies.h', 'reduction_rule'), ('src/edge_value.h', 'edge_type')],
     'consts': [('src/terminal.h', ['OMEGA_NORMAL', 'OMEGA_ZERO', 'OMEGA_INFINITY'])],
     'subst': {'RANGE': 'long', 'EDGETYPE': 'long'},
     'classes': dict([
         ('terminal', {'file': T}),
+        ('edge_value', {'file': EVH}),
         ('policies', {'file': PH, 'fields': ['reduction']}),
         ('forest', {'file': FH, 'fields': ['deflt', 'the_terminal_type'], 'override': {'deflt': 'struct policies deflt'}}),
-    ] + [('mt_' + op, {'opaque': True}) for op in OPS]),
+    ] + [('mt_' + op, {'opaque': True}) for op in OPS] + [('evplus_' + op, {'opaque': True}) for op in ('mult', 'div', 'mod')]
+      + [(c + sfx, {'opaque': True}) for c in CMP for sfx in ('_base', '_mt', '_evplus')]),
     'foreign': {
         'getValueFromHandle': {'*': 'forest__getValueFromHandle_long'},
         'handleForValue': {'*': 'forest__handleForValue_long'},
         'isIdentityReduced': {'deflt': 'policies', '*': 'forest'},
         'getHandle': {'*': 'terminal__getHandle'},
+        'set': {'*': {0: 'edge_value__set_void', 1: 'edge_value__set_long'}},
     },
     'text_subst': [
         (r'terminal t\(v, the_terminal_type\);', 'struct terminal t; terminal__ctor_long_tt(&t, v, the_terminal_type);', FH),
